@@ -29,5 +29,13 @@ CHECKS["C04"] = dict(
     note="scheduling points = limiter lock acquisitions, in-handler yield, thread start/end; sequential consistency between points (A3); Unlock is not a point",
     parts=[dict(bin="vsched", part="c04", shards=16, budget=dict(quick=100, thorough=1500))])
 
+CHECKS["C01"] = dict(
+    level="model_checking", engine="xstate+sched", design_ref="DESIGN.md §5 C01",
+    technique="explicit-state BFS to fixpoint over pool changes and selections on the real RoundRobin + stateless DFS over all interleavings of concurrent selectors",
+    text="Every reachable (pool order, weights, iterator) state of the real balancer over 3-4 servers and the weight alphabet is visited; from each, the next W selections must hit server i exactly w_i/g times (so every window offset after every history of pool changes). Concurrent part: all interleavings of 2-4 selector threads; the combined completion-order sequence must satisfy the same counts.",
+    note="weights limited to the alphabet plus a list of very unequal fixed pools (A4); sequential consistency between scheduling points (A3)",
+    parts=[dict(bin="vh", part="c01", shards=16, budget=dict(quick=100, thorough=1500)),
+           dict(bin="vsched-race", part="c01s", shards=16, budget=dict(quick=100, thorough=1500))])
+
 NOT_APPLICABLE = [dict(property_id=p, reason="check not built yet in this revision (work in progress; see DESIGN.md for the plan)")
                   for p in ALL if p not in CHECKS]
